@@ -24,8 +24,8 @@ PROPS = ["C17_MdocRoundTrip", "C17_SortOnlyReorders", "C17_RemoveOnlyFlags", "C1
 INVS = ["TypeOK", "C17_ValuesRoundTrip"]
 
 
-def cfg(depth, mode):
-    lines = ["SPECIFICATION Spec", "CONSTANTS", " Docs <- MCDocs", " MaxDepth = %d" % depth, ' EmitMode = "%s"' % mode]
+def cfg(depth, mode, docs="MCDocs"):
+    lines = ["SPECIFICATION Spec", "CONSTANTS", " Docs <- %s" % docs, " MaxDepth = %d" % depth, ' EmitMode = "%s"' % mode]
     lines += ["INVARIANT %s" % i for i in INVS]
     lines += ["PROPERTY %s" % p for p in PROPS]
     if mode == "hist":
@@ -674,7 +674,7 @@ def run_tables(ctx, cases, corrupt=None):
 
 # ---- main -----------------------------------------------------------------------------------------------------------
 def run(ctx):
-    ctx.rule = ("L2: every depth-2 history of the mdoc machine over the six small documents of MC_TiltMeta (seed-selected "
+    ctx.rule = ("L2: every depth-2 history of the mdoc machine over the small documents of MC_TiltMeta (3 quick / 6 thorough; seed-selected "
                 "sub-sample) and simulated 6-step behaviours, replayed on one live Mdoc object + files; L3: random "
                 "documents from the grammar (1..80 images) with random operation sequences and random loader / wedge-list "
                 "inputs validated by TiltMetaTrace.  distinct = distinct (document, operation sequence, layout)")
@@ -694,7 +694,7 @@ def run(ctx):
         ctx.exhaustive["L1_mdoc_machine_depth3"] = True
     if want("l2"):
         # all clauses are checked in this run as well (every depth-2 history is a state); it doubles as L1 of the quick tier
-        res = ctx.tlc("MC_TiltMeta", cfg(2, "hist"), name="mdoc_hist", workers=1)
+        res = ctx.tlc("MC_TiltMeta", cfg(2, "hist", ctx.pick("QuickDocs", "MCDocs")), name="mdoc_hist", workers=1)
         ctx.exhaustive["L1_mdoc_machine_depth2"] = True
         hists = [r["hist"] for r in res.records if "hist" in r]
         seen, uniq = set(), []
@@ -703,14 +703,14 @@ def run(ctx):
             if k not in seen:
                 seen.add(k)
                 uniq.append(h)
-        budget = ctx.pick(200, 3000)
+        budget = ctx.pick(100, 3000)
         chosen = sorted(uniq, key=lambda h: core.stable_hash([ctx.seed, h]))[:budget]
         ctx.exhaustive["L2_mdoc_histories"] = len(chosen) == len(uniq)
         ctx.extra["histories_emitted"] = len(uniq)
         ctx.extra["histories_replayed"] = len(chosen)
         for i, h in enumerate(chosen):
             run_history(ctx, h, (ctx.seed * 7919 + i) % 144, "mdoc-history")
-        nsim = ctx.pick(30, 1000)
+        nsim = ctx.pick(25, 1000)
         res = ctx.tlc("MC_TiltMeta", cfg(6, "hist"), name="mdoc_sim", simulate=nsim, depth=8, seed=ctx.seed + 1, workers=1)
         seen, nb = set(), 0
         for r in res.records:
@@ -721,19 +721,19 @@ def run(ctx):
                 continue
             seen.add(k)
             nb += 1
-            if nb > ctx.pick(40, 1000):
+            if nb > ctx.pick(25, 1000):
                 break
             run_history(ctx, r["hist"], (ctx.seed * 31 + nb) % 144, "mdoc-behaviour")
         ctx.extra["behaviours_replayed"] = nb
     if want("l3"):
-        total = ctx.pick(25, 250)
+        total = ctx.pick(16, 250)
         nmax = 80
         cases = [gen_mdoc_case(ctx.rng, i + 1, nmax) for i in range(total)]
         corrupt = os.environ.get("VERIF_C17_CORRUPT") or None
         for b in range(0, total, 100):
             run_random_mdocs(ctx, cases[b:b + 100], corrupt=corrupt if b == 0 else None)
     if want("tables"):
-        total = ctx.pick(80, 2500)
+        total = ctx.pick(70, 2500)
         cases = [gen_table_case(ctx.rng, 100000 + i) for i in range(total)]
         corrupt = os.environ.get("VERIF_C17_CORRUPT") or None
         for b in range(0, total, 500):
